@@ -7,7 +7,10 @@ Sources (all read from lib.REPO at run time, so the corpus follows the tree unde
   * a fixed list of small hand-written programs covering every header-of-statement parser
     (if / else / while / do / for / switch / async / function / class / new / @decorator / arrow
     functions / variable operations / nbt operations), see GENERATED below.
-Each entry: {"name", "src", "header" (or None), "origin"}.
+  * (C13 only, corpus_c13) one small program per entry of STATEMENTS / HEADER_LINES: a table of valid statements by
+    kind that puts every token shape (negative literal, obj:selector, NBT path, keyword argument, macro, ...) in every
+    operand position; entries that do not compile on the tree under test are dropped by the check.
+Each entry: {"name", "src", "header" (or None), "origin"} (+ "kind", "span", "header_span" for statement programs).
 """
 from __future__ import annotations
 
@@ -101,9 +104,476 @@ GENERATED = [
 ]
 
 
+PRE_G = 'function g() { $tp @s $(a) ~ ~; }'
+
+# kind -> valid statements; function-level kinds are wrapped as `function f() { <stmt> say "z"; }` (+ an optional
+# prelude that is NOT mutated), `top:` kinds stand alone at load level.  (statement, prelude) tuples carry a prelude.
+STATEMENTS = {
+    'var_assign': [
+        '$x = -5;',
+        '$x = 5;',
+        '$x = $y;',
+        '$x += -5;',
+        '$x -= -3;',
+        '$x *= -2;',
+        '$x /= -2;',
+        '$x %= -7;',
+        '$x ??= -1;',
+        '$x ??= $y;',
+        '$x >< $y;',
+        '$x++;',
+        '$x--;',
+        '$x = obj:@s;',
+        '$x += obj:@s[tag=a];',
+        '$x.get();',
+        '$x.reset();',
+        '$x;',
+        '$x = true;',
+        '$x = false;',
+        '$x = 2147483647;',
+        '$x = -2147483648;',
+        '$x -= 2147483648;',
+    ],
+    'obj_assign': [
+        'obj:@s = -5;',
+        'obj:@s += -1;',
+        'obj:@a[tag=t] *= -2;',
+        'obj:name ??= -4;',
+        'obj:@s = $x;',
+        'obj:@s -= obj:@p;',
+        'obj:@s.get();',
+        'obj:@s.reset();',
+        'obj:@s--;',
+        'obj:@s++;',
+        'obj:@s >< obj:@p;',
+        '$x >< obj:@s;',
+        'obj:@s[tag=a] = obj:@s[tag=b];',
+        'obj:@e[type=pig,limit=1] = 1;',
+        'obj:@s;',
+        'obj:@s = obj:@e[type=pig,limit=1,sort=nearest];',
+        'obj:$x = 1;',
+    ],
+    'var_store': [
+        '$x = data get entity @s Health;',
+        '$x ?= kill @e[type=pig];',
+        '$y = clear @s diamond 0;',
+        'obj:@s = time query daytime;',
+        '$x = f();',
+        '$x ?= f();',
+        '$x = Math.sqrt($y);',
+        '$x = Math.random(-5, -1);',
+        '$x = Math.random(min=-5, max=-1);',
+        '$x = Math.random();',
+        '$x = @s::Health;',
+        '$x = ::a.b;',
+        '$x = ::a * -3;',
+        '$x = ::a * 0.5;',
+        '$x = ns:st::a[0];',
+        '$x ?= @s::Health;',
+    ],
+    'expr': [
+        '$s := -1 + $y * -2;',
+        '$s := ($a - -3) / ($b + 1) % 4;',
+        '$s := $a ** 2 - $b;',
+        '$s := -$a;',
+        '$s := ($a + 2) * ($b - 1);',
+        '$s := $a / $b + $c % 3;',
+        '$s := obj:@s + $a;',
+        '$s := 2 ** 3;',
+        '$s := 1;',
+        '$s := $a;',
+        '$s := (($a));',
+        '$s := -(1 + 2);',
+        'obj:@s := $a * 2 + obj:@p;',
+        '$s := $a * $a * $a + 7 / 2;',
+    ],
+    'for': [
+        'for ($i = -3; $i < -1; $i++) { say "n"; }',
+        'for ($k = 10; $k > -10; $k -= 2) { say "k"; }',
+        'for ($i = $n; $i >= 0; $i--) { say "b"; }',
+        'for ($i = 0; $i < $n && $i != 3; $i += 2) { say "c"; }',
+        'for ($j = obj:@s; $j matches 1..5; $j *= 2) { say "d"; }',
+        'for ($i = 0; $i < 2; $i++) { for ($j = -1; $j < 1; $j++) { say "ij"; } }',
+        'for ($i = -1; !($i == 3); $i += -1) { say "neg"; }',
+    ],
+    'while_do': [
+        'while ($x < -1) { $x++; }',
+        'while ($x < 3 && $y > -3) { $x++; }',
+        'do { $i--; } while ($i > -5 && $i != -3);',
+        'while ($x matches -3..-1) { $x++; }',
+        'while (!$x) { $x = 1; }',
+        'do { say "o"; } while (entity @s[tag=a]);',
+        'while ($x < 3) $x++;',
+    ],
+    'if': [
+        'if ($x == -1) { say "a"; } else if ($x >= -3 && $y != -2) { say "b"; } else { say "c"; }',
+        'if ($x matches -5..-1) { say "a"; }',
+        'if (!$x) { say "a"; }',
+        'if (!($a == 1 && $b == 2) || $c) { say "b"; }',
+        'if (entity @s[tag=a, scores={o=1..}]) { say "c"; }',
+        'if (block ~ ~-1 ~ stone) { say "d"; }',
+        'if ($x == $y) { say "e"; }',
+        'if (obj:@s > obj:@p) { say "f"; }',
+        'if ($x = $y) { say "g"; }',
+        'if (::a.b) { say "h"; }',
+        'if (::a == 1) { say "i"; }',
+        'if (::s == "str") { say "j"; }',
+        'if ($x === $y) { say "k"; }',
+        'if ($x !== 1) { say "l"; }',
+        'if ($x) return 1;',
+        'if ($x == -1) return -1;',
+        'if ($a) if ($b) say "ab"; else say "a";',
+        'if ($a) say "x"; else say "y";',
+        'if ($x matches 1..2 || $y matches -3..3) { say "m"; }',
+        'if ($x > -1 && ($y < 2 || !($z == -3))) { say "n"; }',
+        'if ($x == 1) expand { say "1"; say "2"; }',
+        'if (Timer.isOver(t)) { say "a"; }',
+        'if (String.isEqual(::a, "b")) { say "b"; }',
+        'if (Timer.isOver(t, @s) && !Object.isEqual(::a, ::b)) { say "c"; }',
+        'if (@s::Health) { say "hp"; }',
+        'if ($x <= -1 || $x >= 1) { say "abs"; }',
+        'if (data entity @s Health) { say "v"; }',
+        'if (predicate ns:p) { say "p"; } else { say "q"; }',
+        'if (score @s o matches -1..) { say "s"; }',
+        'if (f()) { say "fn"; }',
+        'if ($x != $y && obj:@s == -1) say "one";',
+    ],
+    'switch': [
+        'switch (obj:@s) { case 1: say "o"; }',
+        'switch ($x) { case 0: say "zero"; case 1: say "one"; }',
+        'switch ($x) { case 2: say "two"; case 3: if ($y == -1) { say "d"; } say "after"; }',
+        'switch ($x) { case -1: say "neg"; case 0: say "z"; }',
+        'switch ($x) { case 1: switch ($y) { case 1: say "in"; } case 2: say "out"; }',
+        'switch ($x) { case 1: say "a"; break; case 2: say "b"; break; }',
+        'switch ($x) { case 1: say "a"; case 2: $y = -1; case 3: f(); case 4: if ($y == -1) { say "d"; } say "after"; }',
+        'switch ($x) { case 1: say "a"; case 2: $y = -1; break; case 3: f(); }',
+        'switch ($x) { case 1: if ($y == -1) { say "d"; } say "after"; case 2: while ($w < -2) { $w++; } }',
+    ],
+    'execute': [
+        'execute as @a run $x = -5;',
+        'execute if ($x > -1) run $y += -2;',
+        'execute as @a at @s run obj:@s = -7;',
+        'execute as @a at @s positioned ~ ~1 ~ run $x += 1;',
+        'execute as @a run f();',
+        'execute if (entity @s[tag=a]) run return 1;',
+        'execute unless ($x == 1 && $y == 2) run { say "n"; }',
+        'execute as @a run ::a = 1;',
+        'execute as @a expand { say "x"; say "y"; }',
+        'execute run $x = $y;',
+        'execute if ($x matches -1..1) run say "d";',
+        'execute store result score $z __variable__ run data get storage a:b c;',
+        'execute as @a run { say "x"; tp @s ~ ~1 ~; }',
+        'execute as @e[type=pig,nbt={A:-1b}] run $x := $y * -2;',
+        'execute if score @s o matches -1.. run say "v";',
+        'execute as @a run execute at @s run $x++;',
+        'execute as @a run $x = obj:@s;',
+        'execute as @a run Text.tellraw(@s, "hi");',
+        'execute positioned -1 -2 -3 run say "p";',
+        'execute if ($x == -1 || $y == -2) run say "or";',
+        'execute as @a run $x ?= kill @s;',
+        'execute as @a run @s::Health = -1;',
+        'execute as @a run obj:@s.reset();',
+        'execute as @a run $x.get();',
+        'execute as @a run return run $x = -1;',
+    ],
+    'nbt': [
+        '::a = -5;',
+        '::a.b = -1.5f;',
+        '@s::Health = -2;',
+        '::a * -2;',
+        '::a = (int) $x;',
+        '::a = 2 * $x;',
+        '::l << -4;',
+        '::l >> -1;',
+        '::a.b[0].c = 1;',
+        '::a[{x:1}].y = "s";',
+        '@s::Inventory[0].id = "minecraft:stone";',
+        'ns:name::p.q = 2b;',
+        '[~,~1,~]::Items = [];',
+        '::a = ::b.c[2:5];',
+        '::a = ::b[-1];',
+        '::a = ::b[-3:-1];',
+        '::a = ::b[:-1];',
+        '::a.del();',
+        '::a = $x;',
+        '::a = {k: [1, 2, {z: "w"}], s: \'q\'};',
+        '::m ?= $x;',
+        '::a = true;',
+        '::a = (float) $x;',
+        '::a = (byte) obj:@s;',
+        '::a = 1.5d;',
+        '::a = [I; 1, -2];',
+        '::a = [B; 1b];',
+        '::a >> "s";',
+        '::a << {a: -1};',
+        '::t = ::u;',
+        '::a;',
+        '@s::Pos[0];',
+        '::a = "str";',
+        '::a += 1;',
+        '::a = f();',
+        '::a = data get entity @s Pos;',
+        '::a ?= kill @s;',
+        '::a = {};',
+        '::a = [];',
+        '::a.b.c.d = {x: {y: {z: -1}}};',
+        '::a."quoted key" = 1;',
+        '::a = @s::Health;',
+        '@s::Health = ::a;',
+        '::a << ::b[0];',
+    ],
+    'call': [
+        'f();',
+        ('g() with ::path;', PRE_G),
+        ('g() with {a: 1, b: -2};', PRE_G),
+        ('g() with ns:x::path.q;', PRE_G),
+        ('g() with @s::data;', PRE_G),
+        ('g() with [~,~,~]::Items[0];', PRE_G),
+        ('execute as @a run g() with ::p;', PRE_G),
+        ('$x = g() with ::p;', PRE_G),
+        ('g(a="s");', PRE_G),
+        ('g({a: 1});', PRE_G),
+        ('g({a: -1, b: "s"});', PRE_G),
+    ],
+    'return': [
+        'return 1;',
+        'return -1;',
+        'return run f();',
+        'return run { say "r"; }',
+        'return fail;',
+        'return $x;',
+        'return run $x = -1;',
+        'return run execute if ($x == 1) run return -5;',
+        'return;',
+        'return obj:@s;',
+        'return run ::a = -1;',
+    ],
+    'schedule': [
+        'schedule function f 1t;',
+        'schedule f() 2s replace;',
+        'schedule function f 1d append;',
+        'schedule clear f;',
+        'async while ($i < 2) { $i++; } 1t;',
+        'async for ($k = -1; $k < 2; $k++) { say "k"; } 2s;',
+        'schedule 5t { say "later"; }',
+        'schedule 1s replace { say "l"; }',
+        'schedule function ns:other 10;',
+    ],
+    'vanilla': [
+        'tp @s -5 64 -5;',
+        'tp @s ~ ~-1 ~;',
+        'tp @s ^ ^ ^-1.5;',
+        'scoreboard players set @s obj -3;',
+        'effect give @s speed 1 -1;',
+        'give @s diamond_sword[damage=-1,custom_name=\'"x"\'] 1;',
+        'summon pig ~ ~ ~ {NoAI:1b,Motion:[-1.0d,0.0d,1.0d]};',
+        'setblock ~ ~ ~ chest[facing=north]{Items:[]};',
+        'tellraw @a ["a",{"score":{"name":"@s","objective":"o"}}];',
+        'data merge entity @s {Tags:["a"]};',
+        'scoreboard players operation @s o -= @p o;',
+        'tag @e[type=!player,distance=..-1] add t;',
+        'say "a\\tb\\\\c\\"d";',
+        "say 's\\'t';",
+        'tellraw @a {"text":"-1","color":"red","extra":[{"text":"x;y"}]};',
+        'say "u\\u00e9 \\x41 \\N{DIGIT ONE}";',
+        'say "long \\\ncontinued";',
+        'tellraw @a $x.toString(color=red, bold=true);',
+        'tellraw @a obj:@s.toString();',
+        'title @a title $x.toString();',
+        'kill @e[type=pig,scores={o=-5..-1},nbt={A:[{b:-1}]}];',
+        'data modify storage a:b c set value [{x:-1},{y:[1,-2]}];',
+        'function ns:other;',
+        'me "x";',
+        'particle dust{color:[1.0,0.0,0.0],scale:1} ~ ~ ~ 0 0 0 0 1;',
+        'item replace entity @s weapon.mainhand with stick;',
+        'tellraw @a {"text":"a//b"};',
+        '$tp @s $(a) ~ ~-1;',
+        '$x = (const) $(a);',
+        '$y = (var) $(b);',
+        '$$(cmd) arg;',
+        'tp @s @e[type=pig,limit=1,sort=nearest];',
+    ],
+    'builtin': [
+        'Text.tellraw(@a, "&<red, bold>hi &<$x> &<obj:@s>");',
+        'Particle.circle("dust 1 0 0 1", radius=2.5, spread=10, speed=0, count=1, mode=force);',
+        'Timer.set(t, @s, 5);',
+        'Timer.set(t, @s, $x);',
+        'Hardcode.repeat((i) => { say "i"; }, start=3, stop=-1, step=-1);',
+        'Hardcode.switch($x, (i) => { say "i"; }, count=3, begin_at=-1);',
+        'Hardcode.switch($x, (i) => { say "i"; }, count=3);',
+        'printf("&<$x> -1");',
+        'Text.title(@a, "&<gold>T");',
+        'Text.actionbar(@a, "x");',
+        'Tag.update(@s, t, @s[scores={o=-1..}]);',
+        'JMC.put("say raw -1");',
+        'JMC.python(`\nfor i in range(-1, 2):\n    emit(f"say {i}")\n`);',
+        'Entity.launch(1.5);',
+        'Entity.launch(power=-1);',
+        'Array.forEach(::arr, (e) => { say "e"; });',
+        'Raycast.simple(onHit=() => { say "h"; }, onStep=() => { particle flame; }, interval=0.5, maxIter=10, boxSize=0.1, target=@e[type=!player], startAtEye=true, stopAtBlock=true);',
+        'Hardcode.repeatList((x, n) => { say "x n"; }, strings=["a", "b"]);',
+        'Hardcode.repeatLists((a, b, c) => { say "a b c"; }, stringLists=[["1", "2"], ["3", "4"]]);',
+        'Particle.line("flame", distance=5, spread=2);',
+        'Particle.spiral("flame", radius=1, height=2, spread=10);',
+        'Particle.circle("flame", 1, 10);',
+        'Particle.sphere("flame", radius=1.5, spread=8);',
+        'Particle.square("flame", length=2, spread=4, align=corner);',
+        'Particle.cube("flame", 2, 4);',
+        'Particle.cube("flame", length=2, spread=4, align=center);',
+        'Particle.square("flame", length=2, spread=4, align=center, mode=force);',
+        'Particle.cylinder("flame", 1, 2, 8, 2);',
+        'Text.tellraw(@a, "&<red>a&<reset> &<$x, blue>");',
+        'Text.tellraw(@a, "&<::a.b> &<@s::Health, red> &<obj:@s[tag=a], bold>");',
+    ],
+    'top:load': [
+        '$g = -3;',
+        'obj:@a = -1;',
+        '::cfg = {v: -1};',
+        'say "load";',
+        'if ($g == -3) { say "three"; }',
+        'for ($i = -1; $i < 1; $i++) { say "l"; }',
+        'Timer.add(t, runOnce, @a, () => { say "o"; });',
+        'Player.onEvent(jump, () => { $j++; });',
+        'Player.firstJoin(() => { say "hi"; });',
+        'Team.add(blue, "Blue");',
+        'Scoreboard.add(o);',
+        'Scoreboard.add(o, dummy, "Disp");',
+        'Recipe.table({"type": "minecraft:crafting_shapeless", "ingredients": [{"item": "minecraft:oak_planks"}], "result": {"item": "minecraft:diamond", "count": 1}}, baseItem=barrier, onCraft=() => { say "w"; });',
+        'Advancement.grant(@a, everything);',
+        'GUI.template(g, ["XXXXXXXXX"], mode=entity);',
+        '$x = -1; $y = $x;',
+        'execute as @a run $x = -1;',
+        'switch ($g) { case 1: say "a"; }',
+        'while ($g < -1) { $g++; }',
+        'tp @a -1 -2 -3;',
+        'Timer.add(t, runTick, @a, () => { $t--; });',
+        'Timer.add(t, none, @a);',
+        'function f() { say "f"; }\nTrigger.setup(help, {1: () => { say "one"; }, 2: f, 3: () => { $x = -1; }});',
+        'function f() { say "f"; }\nPlayer.rejoin(f);',
+        'function f() { say "f"; }\nPlayer.die(onDeath=() => { say "d"; }, onRespawn=f);',
+        'Item.create(i2, stick, "N", [], {x: -1});',
+        'Team.add(red);',
+        'Team.add(blue, "Blue", {color: blue});',
+        'Bossbar.add(b, "B");',
+        'function f() { say "f"; }\nRightClick.setup(rc, {1: () => { say "1"; }, 2: f});',
+        'Item.createSign(s, oak, "Sign", texts=["a", "b"], nbt={x: -1}, onClick=() => { say "s"; });',
+        'function f() { say "f"; }\nPlayer.onEvent(custom:jump, f);',
+        'Predicate.locations("pl", {"condition": "minecraft:location_check", "predicate": {"__loc__": 1}}, xMin=-1, yMin=-1, zMin=-1, xMax=1, yMax=1, zMax=1);',
+        'TextProp.clickURL("u", "https://x");',
+        'TextProp.hoverText("h", "&<red>hover");',
+        'Item.create(myItem, stick, "N");\nfunction f() { Item.give(myItem, @s, 2); Item.clear(myItem, @s, -1); Item.summon(myItem, "~ ~ ~", count=2); Item.replaceEntity(myItem, @s, "weapon.mainhand"); execute as @a run Item.give(myItem); }',
+    ],
+    'top:def': [
+        'function f() { say "a"; }',
+        'function a.b.c() { a.b.c(); }',
+        'class z { function y() { z.y(); } }',
+        'class a.b { function f() { say "x"; } new loot_tables(l) { "pools": [] } class c { new item_modifiers(m) { "function": "set_count", "count": -1 } } }',
+        'new advancements(base) { "criteria": { "t": { "trigger": "minecraft:tick" } } }',
+        '@add(__load__) function a() { say "a"; }',
+        '@add(from=__tick__) function b() { say "b"; }',
+        '@private function c() { say "c"; }',
+        '@root function d() { say "d"; }',
+        '@if(value=1) function e() { say "e"; }',
+        '@lazy function m() { say "m"; }\nfunction u() { m(); }',
+        'class k { @add(__tick__) function t() { say "t"; } @lazy function z(q) { say "$q"; } function u() { k.z(-1); } }',
+        'function f() { say "a"; } function __tick__() { f(); }',
+        'new tags.functions(q) { "values": [] , "x": -1}',
+        'new dimension(d) { "type": "x" }',
+        'new predicates(p) [ {"condition": "minecraft:random_chance", "chance": -0.5} ];',
+        'new advancements(base) { "criteria": {} }\nnew advancements(child) extends (base) { "display": {} }',
+        '@lazy function l(a, b) { say "$a $b"; $x = $a; }\nfunction u() { l(-1, 2); l(a=1, b=-2); l(3, b=4); }',
+        '@lazy function l(a) { $x = $a; $a; }\nfunction u() { l($y); l(a=say "q"); }',
+    ],
+    'macro': [
+        '$tp @s $(a) ~ ~-1;',
+        '$x = (const) $(a);',
+        '$y = (var) $(b);',
+        '$say "$(a) $(b)";',
+        '$x = (command) $(c);',
+        '$x ?= (command) $(c);',
+        '$x = (const) "$(a)$(b)";',
+        '$x += (const) $(a);',
+        '$give @s $(item)[damage=$(d)] -1;',
+        '$execute as $(sel) run say "m";',
+        '$::a = $(v);',
+        'execute run { $tp @s $(k) ~ ~; } with {k: -1};',
+        'execute as @a run { $tp @s $(k) ~ ~; } with ::path;',
+        '$scoreboard players set @s o $(n);',
+        '$$(cmd) arg;',
+    ],
+}
+
+# (function-level statement, header text): one header directive (or a few cooperating ones) each
+HEADER_LINES = [
+    ('say "A";', '#define A 1'),
+    ('$x = A;', '#define A -1'),
+    ('$y := F(1, 2);', '#define F(x, y) x + y'),
+    ('tp @s H(-1);', '#define H(v) ~v ~ ~'),
+    ('$z = NEG;', '#define NEG -5'),
+    ('say "x";', '#define EMPTY'),
+    ('say "x";', '#define E2(x, y)'),
+    ('$x = T(3);', '#bind EVAL\n#deepdefine T(x) EVAL(x * -2 + 1)'),
+    ('give @s I(tg);', '#deepdefine I(x) stick[tag=x]'),
+    ('$y = EVAL(2 * -3);', '#bind EVAL'),
+    ('say "NS";', '#bind __namespace__ NS'),
+    ('say "U";', '#bind __UUID__ U'),
+    ('say "x";', '#credit "by me"'),
+    ('mycmd 1 -2;', '#command mycmd'),
+    ('say "x";', '#override minecraft'),
+    ('say "x";', '#nometa'),
+    ('$e = E.B;', '#enum E A B C'),
+    ('$e = G.X;', '#enum G -1 X Y'),
+    ('say "x";', '#del give'),
+    ('switch ($x) { case 1: say "a"; case 2: say "b"; }', '#forcebst'),
+    ('say "x";', '#show_private_command'),
+    ('say "x";', '#env DEV'),
+    ('say "x";', '// comment\n#define A -1 // trailing'),
+    ('say C;', '#define C "str;ing"'),
+    ('say "x";', '#define A 1\n#define B A\n#define C(x) B x'),
+    ('$x = P(1, (2, 3));', '#define P(a, b) a'),
+    ('$x = S(-1);', '#define S(x) x'),
+    ('G;', '#define G say "g"'),
+    ('say "x";', '#link x'),
+    ('say "x";', '#resource x'),
+    ('$x = D(1);', '#deepdefine D(x) -x'),
+    ('function uninstall() { say "u"; }', '#uninstall'),
+    ('say "x";', '#define A(x, y, z) x y z\n#define Z A(1, 2, 3)'),
+    ('say Q(a, "b, c", (d, e));', '#define Q(x, y, z) "x"'),
+]
+
+
+def statements() -> list[dict]:
+    """One program per statement of STATEMENTS / HEADER_LINES (strengthening round 1): every operand position of every
+    statement kind (negative literals, obj:selector targets, := expressions, for-headers, execute-run wrappers, switch
+    labels, NBT paths, matches ranges, keyword arguments, vanilla macros, header directives) as a small program whose
+    mutants are taken only inside `span` (character offsets of the statement; the wrapper and prelude stay intact)."""
+    out = []
+    for kind, lst in STATEMENTS.items():
+        for n, item in enumerate(lst):
+            stmt, pre = item if isinstance(item, tuple) else (item, "")
+            if kind.startswith("top:"):
+                src, span = stmt, (0, len(stmt))
+            else:
+                head = "function f() { "
+                src = head + stmt + ' say "z"; }' + ("\n" + pre if pre else "")
+                span = (len(head), len(head) + len(stmt))
+            out.append(dict(name=f"stmt.{kind}.{n}", src=src, header=None, pack_format=None, origin="statements",
+                            kind=kind, span=span, header_span=None))
+    for n, (stmt, hdr) in enumerate(HEADER_LINES):
+        src = "function f() { " + stmt + " }"
+        out.append(dict(name=f"stmt.header.{n}", src=src, header=hdr, pack_format=None, origin="statements",
+                        kind="header", span=(15, 15 + len(stmt)), header_span=(0, len(hdr))))
+    return out
+
+
 def generated() -> list[dict]:
     return [dict(name=f"gen.{n}", src=s, header=None, pack_format=None, origin="generated") for n, s in GENERATED]
 
 
 def corpus(repo: Path) -> list[dict]:
     return from_tests(repo) + from_readme(repo) + generated()
+
+
+def corpus_c13(repo: Path) -> list[dict]:
+    """corpus() + the per-statement programs (their mutants are restricted to the statement's span)"""
+    return corpus(repo) + statements()
